@@ -477,13 +477,24 @@ func MakeForeign(r *rng.R, opts ForeignOpts) *Foreign {
 	if r.Bool() && !opts.Simple {
 		w.feature("header-with-own-rels")
 		himg := MakeImage("png", 5000+r.Intn(1000), 3, 3)
-		f.put("word/media/hdrlogo.png", string(himg.Data))
+		// the header's picture is only referenced from the header's own relationships; its name may follow the
+		// imageN pattern with a number higher than anything the main part refers to
+		logo := "hdrlogo.png"
+		for _, cand := range []string{"image1.png", "image2.png", "image3.png", "image9.png", "hdrlogo.png"}[r.Intn(5):] {
+			if f.Parts["word/media/"+cand] == nil {
+				logo = cand
+				break
+			}
+		}
+		f.put("word/media/"+logo, string(himg.Data))
+		f.Media = append(f.Media, "word/media/"+logo)
+		w.feature("header-media:" + logo)
 		if !addDefault["png"] {
 			addDefault["png"] = true
 			ct = append(ct, `<Default Extension="png" ContentType="image/png"/>`)
 		}
 		f.put("word/header2.xml", hdr+`<w:hdr xmlns:w="`+nsW+`" xmlns:r="`+nsR+`" xmlns:wp="http://schemas.openxmlformats.org/drawingml/2006/wordprocessingDrawing" xmlns:a="http://schemas.openxmlformats.org/drawingml/2006/main" xmlns:pic="http://schemas.openxmlformats.org/drawingml/2006/picture"><w:p><w:r><w:t>Foreign header {{title}}</w:t></w:r><w:r><w:drawing><wp:inline><wp:extent cx="100" cy="100"/><wp:docPr id="9" name="l"/><a:graphic><a:graphicData uri="http://schemas.openxmlformats.org/drawingml/2006/picture"><pic:pic><pic:nvPicPr><pic:cNvPr id="0" name="l"/><pic:cNvPicPr/></pic:nvPicPr><pic:blipFill><a:blip r:embed="rId1"/></pic:blipFill><pic:spPr/></pic:pic></a:graphicData></a:graphic></wp:inline></w:drawing></w:r></w:p></w:hdr>`)
-		f.put("word/_rels/header2.xml.rels", hdr+`<Relationships xmlns="`+relNS+`"><Relationship Id="rId1" Type="`+relT+`image" Target="media/hdrlogo.png"/></Relationships>`)
+		f.put("word/_rels/header2.xml.rels", hdr+`<Relationships xmlns="`+relNS+`"><Relationship Id="rId1" Type="`+relT+`image" Target="media/`+logo+`"/></Relationships>`)
 		ovr("word/header2.xml", "application/vnd.openxmlformats-officedocument.wordprocessingml.header+xml")
 		hid := w.rel("header", "header2.xml", false)
 		sectRefs += `<` + w.el("headerReference") + w.at("type", "default") + ` r:id="` + hid + `"/>`
